@@ -613,8 +613,11 @@ class State:
         na, nb = named(a), named(b)
         compatible = all(na[s] == nb[s] for s in na if s in nb) and \
             all(s == t for s in na for t in nb if na[s] == nb[t])
-        if expect == 'rej':
+        # what the library did is read from the previous call's result, not from the script
+        if self.last == 'rej':
             return 'ok' if not compatible else 'FAIL compose rejected a compatible pair'
+        if not self.last.startswith('ok'):
+            return 'FAIL compose raised something else: %s' % self.last
         if not compatible:
             return 'FAIL compose accepted an incompatible pair'
         d = self.C(hres)
@@ -959,6 +962,17 @@ class State:
                 return 'FAIL `in` for %r' % (s,)
         if set(e.positionsOf().keys()) != set(pts):
             return 'FAIL positionsOf() does not cover exactly the points'
+        for s in c.simplices():
+            if c.orderOf(s) > 0:
+                for assign in (False, True):
+                    if assign:
+                        e.positionSimplex(s, [0.0] * e.dimension())
+                    try:
+                        p = e.positionOf(s)
+                        return 'FAIL position request for %r of order %d returned %r instead of raising ValueError' % (s, c.orderOf(s), p)
+                    except ValueError:
+                        pass
+                break
         d = e.dimension()
         p = [0.0] * d; q = [3.0] + [4.0] * (1 if d > 1 else 0) + [0.0] * max(0, d - 2)
         want = math.sqrt(sum((a - b) ** 2 for a, b in zip(p, q)))
